@@ -729,7 +729,14 @@ func (c *pathBuilderVisitor) fieldIsChildNode(plannerIdx int) bool {
 	path := c.walker.Path.DotDelimitedString()
 	plannerPath := c.planners[plannerIdx].ParentPath()
 	fieldPath := strings.TrimPrefix(path, plannerPath)
-	return strings.ContainsAny(fieldPath, ".")
+	// inline fragment segments ("$<ref><TypeName>") are type conditions, not response levels:
+	// a field directly inside `... on T {}` below the planner's parent path is still a root field
+	for _, segment := range strings.Split(fieldPath, ".") {
+		if segment != "" && !strings.HasPrefix(segment, ast.InlineFragmentPathPrefix) {
+			return true
+		}
+	}
+	return false
 }
 
 // recordFieldPlannedOn - records the planner id on which the field was planned
